@@ -8,6 +8,8 @@ from .. import scratch
 ID = "C13"
 ANCHORS = 'tools.tomtom._tomtom,tools.tomtom._binned_median,tools.tomtom._pairwise_max'.split(",")
 MIN_INSTANCES = 30
+# rule families whose findings in this module are derived by an engine (not by comparing spellings): exempt from the rewrite gate
+SEMANTIC_RULES = {"R-TID", "R-RACE", "R-SCRATCH", "R-BOUNDS", "STATE"}
 EXPLANATION = (
     "R-TID: every array allocated before the prange loop of tomtom._tomtom and used inside it other than through the prange "
     "variable is per-thread scratch and must be addressed with the thread id (numba.get_thread_id()) as first index at every "
